@@ -80,3 +80,14 @@ def fallback2(x):
             r = 2
         r = 3
     return r
+
+
+if fallback(1):
+    def conditional(x):
+        if x:
+            return 1
+        return 2
+
+    class Cond:
+        def meth(self):
+            return 3
